@@ -298,10 +298,28 @@ impl Bundle for AppMarker {
     type Error = jxl_bitstream::Error;
 
     fn parse(bitstream: &mut Bitstream, _: ()) -> Result<Self, Self::Error> {
-        Ok(Self {
-            ty: bitstream.read_u32(0, 1, 2 + U(1), 4 + U(2))?,
-            length: bitstream.read_bits(16)? + 1,
-        })
+        let ty = bitstream.read_u32(0, 1, 2 + U(1), 4 + U(2))?;
+        let length = bitstream.read_bits(16)? + 1;
+
+        // Marker byte, 2-byte length, signature, and chunk index and count for ICC profile.
+        let min_length = match ty {
+            0 => 0,
+            1 => 5 + HEADER_ICC.len(),
+            2 => 3 + HEADER_EXIF.len(),
+            3 => 3 + HEADER_XMP.len(),
+            _ => {
+                return Err(jxl_bitstream::Error::ValidationFailed(
+                    "invalid APP marker type in JPEG bitstream reconstruction data",
+                ));
+            }
+        };
+        if (length as usize) < min_length {
+            return Err(jxl_bitstream::Error::ValidationFailed(
+                "APP marker is too short for its type",
+            ));
+        }
+
+        Ok(Self { ty, length })
     }
 }
 
